@@ -59,8 +59,11 @@ _CTN_NOTE = ("Trusted: Lean kernel; Model/Container.lean renders car.go/reader.g
              "go-cid's CID parsing/hashing, dagcbor, encoding/base64, bufio and io.ReadFull are dependencies: the harness parses each container with its own framing code and gives the model, per section, "
              "go-cid's integrity verdict and FromSealed's verdict as oracles. How bytes are chunked into Read calls is not represented in the model; independence from it is measured by the stream.")
 
-_CHAIN_NOTE = ("Trusted: Lean kernel; Model/Chain.lean renders invocation.go/proof.go/delegation.go by hand and is tied to the code by the differential `chain` stream "
-               "(real signed tokens, verdicts compared in the direction this property needs), not by proof; the system clock moving less than an hour during a call; "
+_CHAIN_NOTE = ("Trusted: Lean kernel; go2lean (the translator): ExecutionAllowed, ExecutionAllowedWithArgsHook, executionAllowed, loadProofs, verifyProofs, verifyTimeBound(At), "
+               "verifyArgs, both IsValidAt, Command.Covers and Policy.Match are regenerated from the source on every run and proved to compute what Model/Chain.lean computes "
+               "(the Tie/Chain* modules listed under `tie`; Loader.GetDelegation, Args.ToIPLD (its sorting is modelled and proved order-free), matchStatement and time.Now are parameters); "
+               "the differential `chain` stream (real signed tokens, verdicts compared in the direction this property needs) remains as a check of the translator, of the parameters' "
+               "instances and of everything around the decision core; the system clock moving less than an hour during a call; "
                "Ed25519 signatures and go-ipld-prime are used to build the tokens but are not part of this property.")
 
 PROPS = {
@@ -70,7 +73,7 @@ PROPS = {
         streams=["command"],
         technique="Lean 4 proof (induction over byte lists) of fast-path Covers ⇔ segment prefix, partial-order laws, parser grammar, Join; model tied to the code by an exhaustive small-domain differential run",
         level_text="Theorems C15_* in lean/Ucan/Props/C15.lean hold for every byte string: Covers (prefix + boundary fast path as written) is exactly segment-prefix on valid commands, hence reflexive/antisymmetric/transitive with / on top and no textual-prefix coverage; Parse accepts exactly the grammar and returns its input; Join appends the non-empty segments. The Go functions are compared with the executable model on every string ≤ 5 (7 thorough) over {/,a,b,A}, every pair of valid ones, and random UTF-8/binary strings.",
-        level_note="Trusted: Lean kernel; that Model/Command.lean renders command.go faithfully (checked differentially, exhaustively up to the stated size, not proved); strings.ToLower is a model parameter (theorems hold for any function) instantiated with Go's own result; factgen for the separator constant.",
+        level_note="Trusted: Lean kernel; go2lean (the translator) — the whole exported surface of pkg/command (Parse, IsValid, New, Top, Join, Segments, Covers) is regenerated from the source on every run and PROVED equal to Model/Command.lean (Tie/Command, CommandCovers, CommandJoin, CommandApi), so the model is no longer a hand rendering to be trusted; strings.ToLower is a model parameter (theorems hold for any function) instantiated with Go's own result, strings.Split / HasPrefix / HasSuffix have models in GoM.lean; factgen for the separator constant. The differential stream remains as a check of the translator and of the string library models.",
         assumptions=["strings.ToLower is a parameter of the model: every theorem holds for any lower-casing function; the driver is given Go's own strings.ToLower(s) with each case"],
     ),
     "C13": dict(
@@ -79,7 +82,7 @@ PROPS = {
         streams=["glob"],
         technique="Lean 4 proof that the single-backtrack-point matcher decides the inductively defined glob language for every pattern and string; model tied to the code by an exhaustive small-alphabet differential run through policy.Like/Match",
         level_text="C13_globMatch_iff_Lang: for every token list and every byte string the matcher (literal run / backtrack rendering of the Go loop) returns true iff the string is in the inductively defined language (star = any split, literal = itself); C13_parse_reject_iff: patterns are rejected exactly when they end in a lone backslash; escape rules stated as equations. Go's policy.Like+Match is compared with model and spec on every pair over {a,b,*,\\} up to length 4 (5 thorough) and on random longer/multi-byte pairs.",
-        level_note="Trusted: Lean kernel; that Model/Glob.lean (token-level litRun/scan) takes the same decisions as the index-level loop of glob.go — checked differentially (exhaustive up to the stated size), not proved.",
+        level_note="Trusted: Lean kernel; go2lean — parseGlob and glob.Match (the index-level loop with its single backtrack point, including termination within the stated fuel) are regenerated from the source and proved equal to Model/Glob.lean (Tie/Glob, Tie/GlobMatch); the differential stream (exhaustive up to the stated size) remains as a check of the translator and of how policy.Like / Policy.Match reach the matcher.",
         assumptions=["like on a non-string value is false (part of the C11 model)"],
     ),
     "C12": dict(
@@ -97,7 +100,7 @@ PROPS = {
         streams=["policy"],
         technique="Lean 4 proofs over a mutual-recursive model of matchStatement: classical semantics under a resolves predicate, invariance under an inductively defined operand-permutation relation (loops shown equal to folds of commutative-associative four-valued operations), monotonicity, full⇒partial, concatenation; tied to the code by an exhaustive depth-≤2 statement × data differential run plus random permuted policies",
         level_text="C11_classical (every selector resolves ⇒ Match = conjunction of classical truth values; like = glob language; ordering only between two ints or two finite floats), C11_perm_operands / C11_perm_and / C11_perm_or / C11_perm_elements (order independence for any nesting), C11_and_monotone / C11_all_monotone, C11_full_implies_partial, C11_append, C11_required_missing / C11_optional_missing — all for every policy and every IPLD value. Go's Match/PartialMatch are compared with the model on every depth-≤2 statement family × 16 data trees (with the negated statement, to observe the four-valued result) and on random depth-≤4 policies in original and permuted form.",
-        level_note="Trusted: Lean kernel; Model/Policy.lean renders match.go by hand, evaluating children eagerly (sound because children are pure once integers fit int64 — C09); DeepEqual and float comparison are modelled on IEEE bit patterns in Model/Node.lean; checked differentially, not proved.",
+        level_note="Trusted: Lean kernel; Policy.Match / PartialMatch and the fold step `accumulate` of and/or/all/any are regenerated from the source and proved equal to the model (Tie/PolicyMatch, Tie/PolicyAcc, go2lean trusted); matchStatement itself (type switches over an interface, go-ipld-prime iterators) is rendered by hand in Model/Policy.lean, evaluating children eagerly (sound because children are pure once integers fit int64 — C09), with DeepEqual and float comparison modelled on IEEE bit patterns in Model/Node.lean — that part is checked differentially, not proved.",
         assumptions=["integers in policies and data fit int64 (otherwise must.Int/DeepEqual panic: C09)", "or [] is true, as the UCAN specification and the in-tree tests require"],
     ),
     "C01": dict(
@@ -172,7 +175,7 @@ PROPS = {
         streams=["did"],
         technique="Lean 4 proofs over a model of Parse/String/PubKey/FromPubKey; base-58 is a model of its own with decode∘encode = id proved by induction on positional notation (no multibase hypothesis left), the per-codec key (un)marshallers are parameters: varint round trip (induction), key→DID→text→DID→key identity, DID equality ⇔ key equality, canonical-identifier theorem, rejection theorems, and a decide-checked inclusion between the multicodec tables REGENERATED from the source; tied by a differential run over keys of every algorithm and alternative encodings of their material with an independent crypto-library oracle",
         level_text="Base58.decode_encode / encode_injective (every byte string, leading zeros included) and the corollaries C16_parse_print_base58, C16_roundtrip_base58, C16_print_injective_base58, C16_reject_not_base58; C16_tables (every code FromPubKey can emit is in Parse's whitelist and PubKey's table — over facts regenerated from did.go/crypto.go on every run), uvarint_roundtrip, C16_parse_print, C16_roundtrip, C16_eq_iff, C16_distinct_algorithms, C16_canonical, C16_one_principal_one_did, C16_print_injective, C16_reject_prefix/base/codec, C16_parsed_code. Go is compared with the model on keys of Ed25519, secp256k1 (native and ECDSA-typed, incl. short coordinates), P-256/384/521, RSA and on did:key strings with uncompressed/hybrid points, flipped parity, off-curve x, wrong lengths, malformed DER, non-minimal varints, foreign codes and multibases, bad base58.",
-        level_note="Trusted: Lean kernel; factgen's extraction of the three multicodec tables; conditional on library contracts stated as hypotheses (base58 decode∘encode = id and injectivity; unmarshal∘marshal = id; marshal injective) — measured by the stream, not proved; mr-tron/base58, go-multibase, go-varint, libp2p crypto, crypto/x509 and crypto/elliptic are dependencies outside the proofs. The driver's base58 is executable glue, checked differentially against Go's.",
+        level_note="Trusted: Lean kernel; factgen's extraction of the three multicodec tables; go2lean for did.Parse, which is regenerated and proved to accept exactly what Model/Did.lean accepts (Tie/Did: prefix, text handed to multibase, base58btc test, accepted codes; multibase.Decode and varint.FromUvarint are parameters there); String, PubKey and FromPubKey are rendered by hand; conditional on library contracts stated as hypotheses (base58 decode∘encode = id and injectivity; unmarshal∘marshal = id; marshal injective) — measured by the stream, not proved; mr-tron/base58, go-multibase, go-varint, libp2p crypto, crypto/x509 and crypto/elliptic are dependencies outside the proofs. The driver's base58 is executable glue, checked differentially against Go's.",
         assumptions=["base58btc and the key (un)marshallers are parameters of the model with explicit contracts"],
     ),
     "C06": dict(
@@ -188,7 +191,7 @@ PROPS = {
         level_note=_TOKEN_NOTE + " Conditional on EUF-CMA of the signature schemes: the theorems reduce 'no accepted modification changes a field' to 'no valid signature on a different message', they do not prove unforgeability.",
     ),
     "C07": dict(
-        tie=["Ucan.Props.Tie.ParseTime"],
+        tie=["Ucan.Props.Tie.ParseTime", "Ucan.Props.Tie.Decode"],
         props_module="Ucan.Props.C07",
         streams=["token"],
         filter=_token_filter(["token.roundtrip"]),
@@ -197,7 +200,7 @@ PROPS = {
         level_note=_TOKEN_NOTE + " The component round trips are hypotheses of the theorems (DID: C16_parse_print; command: C15_parse_ok_iff; policy: C14_policy_roundtrip + the not-yet-proved selector print/parse idempotence).",
     ),
     "C10": dict(
-        tie=["Ucan.Props.Tie.ParseTime", "Ucan.Props.Tie.Command", "Ucan.Props.Tie.CommandApi"],
+        tie=["Ucan.Props.Tie.ParseTime", "Ucan.Props.Tie.Command", "Ucan.Props.Tie.CommandApi", "Ucan.Props.Tie.Decode"],
         props_module="Ucan.Props.C10",
         streams=["token"],
         # field cases count in ONE direction: something malformed is accepted (or accepted with another value than the model
